@@ -34,18 +34,30 @@ type tkey struct {
 	own  string // the field / member / key it denotes at type level
 	val  ref.Val
 	req  bool
+	typ  string // the value's type name
 }
 
 // keysOf lists the keys a builder of t at the given level accepts, with a valid value for each.
 func keysOf(s *rs.Schema, t *rs.Type, repr bool) ([]tkey, bool) {
-	valOf := func(tn string) (ref.Val, bool) {
-		switch s.T(tn).Kind {
+	var valOf func(tn string) (ref.Val, bool)
+	valOf = func(tn string) (ref.Val, bool) {
+		ct := s.T(tn)
+		switch ct.Kind {
 		case rs.TInt:
 			return ref.Int(1), true
 		case rs.TString:
 			return ref.Str("s"), true
 		case rs.TBool:
 			return ref.Bool(true), true
+		case rs.TList:
+			// a container value: one element (so that an entry silently dropped shows)
+			if e, ok := valOf(ct.ValType); ok && e.K != ref.KList && e.K != ref.KMap {
+				return ref.List(e), true
+			}
+		case rs.TMap:
+			if e, ok := valOf(ct.ValType); ok && e.K != ref.KList && e.K != ref.KMap {
+				return ref.Map(ref.E("k", e)), true
+			}
 		}
 		return ref.Val{}, false
 	}
@@ -64,7 +76,7 @@ func keysOf(s *rs.Schema, t *rs.Type, repr bool) ([]tkey, bool) {
 			if repr && f.Rename != "" {
 				name = f.Rename
 			}
-			out = append(out, tkey{name, f.Name, v, !f.Optional})
+			out = append(out, tkey{name, f.Name, v, !f.Optional, f.Type})
 		}
 		return out, true
 	case rs.TMap:
@@ -72,7 +84,7 @@ func keysOf(s *rs.Schema, t *rs.Type, repr bool) ([]tkey, bool) {
 		if !ok {
 			return nil, false
 		}
-		return []tkey{{"a", "a", v, false}, {"b", "b", v, false}}, true
+		return []tkey{{"a", "a", v, false, t.ValType}, {"b", "b", v, false, t.ValType}}, true
 	}
 	return nil, false
 }
@@ -201,6 +213,7 @@ func runTyped(eng typed.Engine, s *rs.Schema, t *rs.Type, repr bool, keys []tkey
 			st.built = true
 		default:
 			route, kname, _ := strings.Cut(c, ":")
+			kname, vroute, _ := strings.Cut(kname, "/")
 			var k tkey
 			for _, x := range keys {
 				if x.name == kname {
@@ -235,7 +248,23 @@ func runTyped(eng typed.Engine, s *rs.Schema, t *rs.Type, repr bool, keys []tkey
 					}
 				}
 				if kerr == nil && !dup {
-					kerr = ref.Assign(va, k.val)
+					switch vroute {
+					case "node":
+						kerr = va.AssignNode(ref.Basic(k.val))
+					case "own":
+						// a node of the value's own type made by the same engine
+						cb := eng.Proto(s, k.typ, repr).NewBuilder()
+						if err := ref.Assign(cb, k.val); err != nil {
+							panic("harness: cannot prebuild " + k.typ + ": " + err.Error())
+						}
+						own := cb.Build()
+						if tn, ok := own.(schema.TypedNode); ok && repr {
+							own = tn.Representation()
+						}
+						kerr = va.AssignNode(own)
+					default:
+						kerr = ref.Assign(va, k.val)
+					}
 					if kerr != nil {
 						at = "value assignment"
 					}
@@ -276,6 +305,25 @@ func runTyped(eng typed.Engine, s *rs.Schema, t *rs.Type, repr bool, keys []tkey
 	return nil, st, false
 }
 
+// canFinish: every required key has been supplied (Finish is then a legal call that must succeed).
+func canFinish(st tstate, keys []tkey) bool {
+	for _, k := range keys {
+		if !k.req {
+			continue
+		}
+		have := false
+		for _, d := range st.done {
+			if d == k.own {
+				have = true
+			}
+		}
+		if !have {
+			return false
+		}
+	}
+	return true
+}
+
 func enabledTyped(st tstate, keys []tkey) []string {
 	if st.built {
 		return nil
@@ -288,6 +336,8 @@ func enabledTyped(st tstate, keys []tkey) []string {
 		for _, route := range []string{"Entry", "KeyString", "KeyNode"} {
 			out = append(out, route+":"+k.name)
 		}
+		// the value given as an existing node: of another implementation, and of its own type
+		out = append(out, "Entry:"+k.name+"/node", "Entry:"+k.name+"/own", "KeyString:"+k.name+"/own")
 	}
 	return append(out, "Finish")
 }
@@ -316,6 +366,16 @@ func exploreTyped(r *core.Run, eng typed.Engine, s *rs.Schema, t *rs.Type, repr 
 				r.Report("typed-calls", TCase{eng.Name(), s.Name, t.Name, repr, calls}, fs)
 				if len(fs) > 0 || ended {
 					continue
+				}
+				// States are merged by the model's view of them, so what this very transition left in the
+				// real builder is observed right away: finish and build from here whenever that is legal
+				// and compare with the model (a path merged away is still a path whose product was read).
+				if !st2.finished && !st2.built && canFinish(st2, keys) {
+					probe := append(append([]string(nil), calls...), "Finish", "Build")
+					pfs, _, _ := runTyped(eng, s, t, repr, keys, probe)
+					trans++
+					r.Traces.Add(1)
+					r.Report("typed-calls", TCase{eng.Name(), s.Name, t.Name, repr, probe}, pfs)
 				}
 				if k := st2.key(); !seen[k] {
 					seen[k] = true
